@@ -63,6 +63,16 @@ def _run(prop, tier, replay, max_tamper, quick_n, text):
     agg = merge(res)
     rep.add_tlc('StoneWireMC', agg, {'schemas': sel, 'of': NCFG, 'MaxTamper': max_tamper, 'Depth': 2})
     rep.add_judged(agg)
+    if prop == 'C06' and tier == 'thorough':
+        # two edits per document: random behaviours of the same machine (16 simulation runs, different seeds)
+        def sim_cfg(s):
+            c = _cfg(s, 2, sel)
+            c['_tlc'] = {'simulate': 'num=2500', 'depth': 8, 'seed': seed() * 16 + s}
+            return c
+        res = run_shards('StoneWireMC', sim_cfg, shards, 'wirecheck.WireJudge', {'prop': prop}, tlc_kwargs={'timeout': 3000})
+        agg2 = merge(res)
+        rep.add_tlc('StoneWireMC/two-tamper-simulate', agg2, {'MaxTamper': 2, 'num': 16 * 2500, 'depth': 8})
+        rep.add_judged(agg2)
     rep.exhaustive = (len(sel) == NCFG)
     rep.coverage_extra['rule'] = text
     rep.assumptions = [
